@@ -144,6 +144,62 @@ def sites():
 NO_EMISSION = {("mysql", "on_conflict")}
 
 
+def qid(n):
+    return '"' + n.replace('"', '""') + '"'
+
+
+# SQLite as a second judge: the statement must prepare against a schema whose objects carry exactly the supplied name.
+# site -> DDL (given the reference-quoted name) on top of  t(x, y), u(x, y)
+def _col(t, qn, n):
+    return ['CREATE TABLE "%s" ("x", "y"%s)' % (t, "" if n in ("x", "y") else ", " + qn)]
+
+
+ENGINE_SCHEMA = {
+    "from_table": lambda qn, n: ["T", "U", 'CREATE TABLE IF NOT EXISTS %s ("x", "y")' % qn],
+    "from_table_star": lambda qn, n: ["T", "U", 'CREATE TABLE IF NOT EXISTS %s ("x", "y")' % qn],
+    "join_table": lambda qn, n: ["T", "U", 'CREATE TABLE IF NOT EXISTS %s ("x", "y")' % qn],
+    "qualifier": lambda qn, n: ["T", "U", 'CREATE TABLE IF NOT EXISTS %s ("x", "y")' % qn],
+    "insert_table": lambda qn, n: ["T", "U", 'CREATE TABLE IF NOT EXISTS %s ("x")' % qn],
+    "update_table": lambda qn, n: ["T", "U", 'CREATE TABLE IF NOT EXISTS %s ("x", "y")' % qn],
+    "delete_table": lambda qn, n: ["T", "U", 'CREATE TABLE IF NOT EXISTS %s ("x", "y")' % qn],
+    "drop_table": lambda qn, n: ["T", "U", 'CREATE TABLE IF NOT EXISTS %s ("x", "y")' % qn],
+    "select_into_table": None, "insert_select_table": lambda qn, n: ["T", "U", 'CREATE TABLE IF NOT EXISTS %s ("x")' % qn],
+    "replaced_table": lambda qn, n: ["T", "U", 'CREATE TABLE IF NOT EXISTS %s ("x", "y")' % qn],
+    "column_select": lambda qn, n: _col("t", qn, n) + ["U"], "column_where": lambda qn, n: _col("t", qn, n) + ["U"],
+    "column_qualified": lambda qn, n: ["T"] + _col("u", qn, n), "insert_columns": lambda qn, n: _col("t", qn, n) + ["U"],
+    "set_target": lambda qn, n: _col("t", qn, n) + ["U"], "orderby_str": lambda qn, n: _col("t", qn, n) + ["U"],
+    "groupby_str": lambda qn, n: _col("t", qn, n) + ["U"], "select_str": lambda qn, n: _col("t", qn, n) + ["U"],
+    "using": lambda qn, n: _col("t", qn, n) + _col("u", qn, n), "field_of_aliased_table": lambda qn, n: _col("t", qn, n) + ["U"],
+    "table_alias": lambda qn, n: ["T", "U"], "select_alias": lambda qn, n: ["T", "U"], "select_alias_groupby": lambda qn, n: ["T", "U"],
+    "select_alias_orderby": lambda qn, n: ["T", "U"], "function_alias": lambda qn, n: ["T", "U"], "subquery_alias": lambda qn, n: ["T", "U"],
+    "join_subquery_alias": lambda qn, n: ["T", "U"], "create_table": lambda qn, n: [], "create_column": lambda qn, n: [],
+}
+
+
+def engine_prepares(site, n, text):
+    """None when the site is not judged by the engine, else "" (prepared) or SQLite's message"""
+    import sqlite3
+
+    mk = ENGINE_SCHEMA.get(site)
+    if mk is None or "\0" in n:
+        return None
+    con = sqlite3.connect(":memory:")
+    try:
+        for ddl in mk(qid(n), n):
+            ddl = {"T": 'CREATE TABLE IF NOT EXISTS "t" ("x", "y")', "U": 'CREATE TABLE IF NOT EXISTS "u" ("x", "y")'}.get(ddl, ddl)
+            try:
+                con.execute(ddl)
+            except sqlite3.Error:
+                return None  # (the name cannot be given to a schema object of this kind, e.g. a table called sqlite_x: nothing to judge)
+        try:
+            con.execute("EXPLAIN " + text)
+            return ""
+        except sqlite3.Error as ex:
+            return str(ex)
+    finally:
+        con.close()
+
+
 def names(tier, rnd):
     out = ["".join(p) for n in (1, 2) for p in itertools.product(ALPHABET, repeat=n)]
     out += KEYWORDS + ["My Col", 'a"b"c', "x``y", "a.b.c", "ü ñ", "tab\tname", "x'--", "a]b[c"]
@@ -173,6 +229,7 @@ def run(tier: str) -> int:
     qcls = core.query_classes()
     nm = names(tier, rnd)
     events, meta = [], []
+    engine = [0]
     for d, Q in qcls.items():
         ld = core.lex_dialect(d)
         q = ord("`") if d == "mysql" else ord('"')
@@ -203,6 +260,13 @@ def run(tier: str) -> int:
                 ev = lit.make_event(len(events), d, text, btext, "id", MARK, [lit.id_alt(n, [q])], sample_lex=(len(events) % 101 == 0))
                 events.append(ev)
                 meta.append((d, sname, n, text))
+                if d == "sqlite":
+                    err = engine_prepares(sname, n, text)
+                    if err is not None:
+                        engine[0] += 1
+                    if err:
+                        rep.discrepancy([[d, sname, "engine", c] for c in char_classes(n)], {"dialect": d, "site": sname, "name": n, "text": text, "engine": err},
+                                        what="SQLite does not prepare the statement against a schema whose objects carry the supplied name")
     # second pass: the name-bearing objects (tables with their schemas, fields, index terms) are built ONCE and rendered under
     # two dialects with different identifier quotes in a row; the second text is judged like any other
     special = ["My Col", 'a"b', "x`y", "a.b", "select", "é x"] + (nm[::37] if tier != "quick" else [])
@@ -254,6 +318,7 @@ def run(tier: str) -> int:
                 "two dialects with different quote characters in a row (4 ordered dialect pairs x sites x special names)")
     rep.exhaustive = True
     rep.extra["sites"] = sorted(st)
+    rep.extra["sqlite_prepared_statements"] = engine[0]
     rep.assumptions = ["identifier grammar per dialect as written in PT_Lex (double quote, backtick for MySQL, doubling as escape)"]
     return rep.finish()
 
